@@ -1069,3 +1069,55 @@ pub fn policies() -> Vec<Script> {
         p(&["foreign"], true, Some(0)),
     ]
 }
+
+
+/// Long sequences and maps for the standard containers: n entries, faulty ones at and around the
+/// indices where an implementation that reads in chunks (256, 1024, 2048) has its seams, and at the end.
+pub fn long_cases(reg: &Registry) -> Vec<(&dyn Subject, Case)> {
+    let mut out = vec![];
+    let plain = |a: Ov| Ov::Map(vec![("a".into(), a), ("b".into(), Ov::str("s")), ("c".into(), Ov::Bool(true))]);
+    // (subject, good element, faulty element)
+    let seqs: Vec<(&str, Box<dyn Fn(usize) -> Ov>, Ov)> = vec![
+        ("Vec<u8>", Box::new(|i| Ov::Int((i % 200) as u64)), Ov::str("x")),
+        ("Vec<Option<i16>>", Box::new(|i| if i % 3 == 0 { Ov::Null } else { Ov::Int(7) }), Ov::Bool(true)),
+        ("Vec<Vec<bool>>", Box::new(|_| Ov::Seq(vec![Ov::Bool(true)])), Ov::Seq(vec![Ov::Int(1)])),
+        ("Vec<Plain>", Box::new(move |i| plain(Ov::Int((i % 200) as u64))), Ov::Map(vec![("a".into(), Ov::str("x")), ("b".into(), Ov::str("s")), ("c".into(), Ov::Bool(true))])),
+        ("Option<Vec<u8>>", Box::new(|_| Ov::Int(1)), Ov::Int(256)),
+        ("Box<Vec<Box<i8>>>", Box::new(|_| Ov::Neg(-1)), Ov::Neg(-129)),
+        ("BTreeSet<String>", Box::new(|i| Ov::str(&format!("s{i}"))), Ov::Int(1)),
+        ("HashSet<u8>", Box::new(|i| Ov::Int((i % 256) as u64)), Ov::Int(256)),
+        ("Vec<serde_json::Value>", Box::new(|i| Ov::Int(i as u64)), Ov::Float(vcore::ov::FBits(f64::NAN.to_bits()))),
+    ];
+    for (name, good, bad) in &seqs {
+        let Some(s) = reg.get(name) else { continue };
+        for n in [1024usize, 1025, 2049, 3000] {
+            for faults in [vec![1023], vec![0, 1023, 1024], vec![255, 256, 1022, 1023, 1024, 1025, 2047, 2048, n - 1], vec![1024, n - 1], vec![2047, 2048]] {
+                let fs: Vec<usize> = faults.into_iter().filter(|f| *f < n).collect();
+                if fs.is_empty() {
+                    continue;
+                }
+                let elems: Vec<Ov> = (0..n).map(|i| if fs.contains(&i) { bad.clone() } else { good(i) }).collect();
+                out.push((s, Case { payload: Ov::Seq(elems), faults: vec!["long-sequence"] }));
+            }
+        }
+    }
+    let maps: Vec<(&str, Box<dyn Fn(usize) -> String>, Ov, Ov)> = vec![
+        ("HashMap<String,u8>", Box::new(|i| format!("k{i:05}")), Ov::Int(1), Ov::Int(256)),
+        ("BTreeMap<String,Vec<u8>>", Box::new(|i| format!("k{i:05}")), Ov::Seq(vec![Ov::Int(1)]), Ov::str("x")),
+        ("BTreeMap<u8,bool>", Box::new(|i| format!("{}", i % 256)), Ov::Bool(true), Ov::Int(0)),
+    ];
+    for (name, key, good, bad) in &maps {
+        let Some(s) = reg.get(name) else { continue };
+        for n in [1025usize, 2049] {
+            for faults in [vec![1023], vec![0, 255, 256, 1023, 1024, n - 1], vec![2047, 2048]] {
+                let fs: Vec<usize> = faults.into_iter().filter(|f| *f < n).collect();
+                if fs.is_empty() {
+                    continue;
+                }
+                let entries: Vec<(String, Ov)> = (0..n).map(|i| (key(i), if fs.contains(&i) { bad.clone() } else { good.clone() })).collect();
+                out.push((s, Case { payload: Ov::Map(entries), faults: vec!["long-map"] }));
+            }
+        }
+    }
+    out
+}
